@@ -97,6 +97,11 @@ std::string XmlAttribute::value() const
     return valueString;
 }
 
+void XmlAttribute::setValue(const std::string &value)
+{
+    xmlSetNsProp(mPimpl->mXmlAttributePtr->parent, mPimpl->mXmlAttributePtr->ns, mPimpl->mXmlAttributePtr->name, reinterpret_cast<const xmlChar *>(value.c_str()));
+}
+
 XmlAttributePtr XmlAttribute::next() const
 {
     xmlAttrPtr next = mPimpl->mXmlAttributePtr->next;
